@@ -427,7 +427,9 @@ def main(tier):
                                 "after every action every token is observed completely in a throw-away snapshot and compared with the model"}
         # the SQLite store: the same alphabet one level shallower (successors reached in restoring snapshots)
         ddepth = depth - 1
-        exd = Explorer(C14(util=not quick), variant=variant, store="db", deadline=deadline)
+        # (library-only alphabet in both tiers: the softhsm2-util actions create and delete token directories, which the restoring in-place snapshots of the
+        #  SQLite lane do not undo reliably - the first thorough run with them ended in non-reproducible observations, i.e. harness errors)
+        exd = Explorer(C14(util=False), variant=variant, store="db", deadline=deadline)
         try:
             fixd = exd.bfs(ddepth)
             confirm_violations(exd, rep)
